@@ -274,6 +274,14 @@ int32_t tls13NewTicket(ssl_t *ssl,
 # endif
 
     tag = psMalloc(ssl->hsPool, TLS_GCM_TAG_LEN);
+    if (tag == NULL)
+    {
+        tls13FreePsk(psk, ssl->hsPool);
+        psFree(state, ssl->hsPool);
+        psAesClearGCM(&ctx);
+        psDynBufUninit(&buf);
+        return PS_MEM_FAIL;
+    }
     psAesGetGCMTag(&ctx,
             TLS_GCM_TAG_LEN,
             tag);
@@ -370,6 +378,10 @@ int32_t tls13DecryptTicket(ssl_t *ssl,
 
     ptLen = encStateLen;
     pt = psMalloc(ssl->hsPool, ptLen);
+    if (pt == NULL)
+    {
+        goto out_internal_error;
+    }
 
     rc = psAesInitGCM(&ctx, key->symkey, key->symkeyLen);
     if (rc < 0)
